@@ -732,9 +732,14 @@ class An:
                 hi = fn.get('end')
                 if rk == 'core::ops::RangeFull':
                     return args[0]
+                if rk == 'core::ops::RangeToInclusive' and hi is not None:
+                    return mk_slice(args[0], None, fold_bin('Add', hi, ('const', 'usize', 1)))       # x[..=b] is x[..b + 1]
                 if rk in ('core::ops::RangeInclusive', 'core::ops::RangeToInclusive'):
                     return ('unknown', 'inclusive range slice')
                 return mk_slice(args[0], lo, hi)
+            if r[0] == 'call' and r[1] == 'core::ops::RangeInclusive::new' and len(r[2]) == 2:
+                # x[a..=b] is x[a..b + 1] (b == usize::MAX panics in the indexing itself, a site of its own)
+                return mk_slice(args[0], r[2][0], fold_bin('Add', r[2][1], ('const', 'usize', 1)))
             if r[0] == 'call' and r[1] == 'core::ops::RangeInclusive::new':
                 return ('unknown', 'inclusive range slice')
             return mk_elem(args[0], r)
@@ -982,6 +987,9 @@ def ref_summary(facts, key):
 
 # ---------------------------------------------------------------------- term helpers
 def mk_slice(t, lo, hi):
+    # x[a..x.len()] is x[a..]
+    if hi is not None and hi[0] == 'len' and strip_sites(hi[1]) == strip_sites(t):
+        hi = None
     if t[0] == 'addr':
         return ('addr', t[1], t[2] + (('slice', lo, hi),), t[3])
     return ('addr', ('pointee', t), (('slice', lo, hi),), False)
